@@ -10,8 +10,9 @@ CONSTANTS MaxBlocks, MaxPerSession,      \* number of write-outs attempted
 \* payload size classes [raw, enc] relative to BufCap = 4:
 \*   empty; small compressible; small incompressible (enc > raw, both buffered);
 \*   mid incompressible (raw <= BufCap < enc); large compressible; large incompressible
+\*   (BigC: large raw, compresses below the buffer size)
 PayAll == { [raw |-> 0, enc |-> 0], [raw |-> 2, enc |-> 1], [raw |-> 1, enc |-> 2],
-            [raw |-> 4, enc |-> 5], [raw |-> 7, enc |-> 5], [raw |-> 5, enc |-> 6] }
+            [raw |-> 4, enc |-> 5], [raw |-> 7, enc |-> 5], [raw |-> 7, enc |-> 2], [raw |-> 5, enc |-> 6] }
 PayFew == { [raw |-> 0, enc |-> 0], [raw |-> 2, enc |-> 1], [raw |-> 5, enc |-> 6] }
 PayTwo == { [raw |-> 2, enc |-> 1], [raw |-> 5, enc |-> 6] }
 Pays == IF PayKind = "all" THEN PayAll ELSE IF PayKind = "few" THEN PayFew ELSE PayTwo
